@@ -55,8 +55,12 @@ PROP = {
             "CreateValueDump vs an independent bitwise CRC64. C03replay: real RedisOutput.sendRdb (ParseRdb -> fan-out -> "
             "rdbReplay -> RdbReplay.Replay) in a synctest bubble against the in-process target double, 220 / 5000 files x "
             "random config (restore on/off, MaxProtoBulkLen 30/120/512MiB, parallel 1-4, TargetDb, TargetDbMap, target "
-            "version 4-8, threshold, pre-existing keys of other type/with TTL); per-worker request logs vs the Lean replay "
-            "model; monitor = target double's interpreter reconstructs the keyspace and compares with the dataset (type, "
+            "version 4-8, threshold, pre-existing keys of other type/with TTL, OUTPUT FILTER: multi-DB datasets whose keys - "
+            "preferably the first key of a DB - carry the reserved prefixes redis-gunyu-checkpoint* / /redis-gunyu*, or are hit "
+            "by configured prefix black/white lists, slot black/white ranges, DB black list); per-worker request logs vs the Lean "
+            "replay model (filterDb/filterKey are parameters of Model/Rdb/Replay.lean: SELECT follows the entry's DB before the "
+            "key/slot filter is asked); monitor also checks every unfiltered key lands in its mapped DB and filtered keys / "
+            "black-listed DBs are absent (independent prefix + bitwise HASH_SLOT decision); monitor = target double's interpreter reconstructs the keyspace and compares with the dataset (type, "
             "content incl. order/scores/fields/stream entries+ids+groups+PEL, TTL = expireAt-now or expired-at-once, DB "
             "mapping, RESTORE payload = type+serialization+0x0006+CRC64 by the independent CRC). "
             "distinct_nontrivial = (kind, value-shape) classes seen",
@@ -74,9 +78,11 @@ PROP = {
         "decoder/expansion/replay models are hand-written and tied by correspondence (not regenerated); CRC64 table and RDB "
         "constants are regenerated from the Go source each run",
         "models are of the REPAIRED behaviour for D8, D9, D10, D11 and N1 (fix: commits in /repo, witnesses in corpus/C03)",
+        "fanOut_same_key needs a non-empty key: entries with the EMPTY key are distributed round-robin by sendRdb, so chunks of "
+        "a split hash stored under the key \"\" could reach different workers when parallel > 1 (not generated; noted by C04)",
         "a worker that hits an error cancels the sync: the model does not describe the requests other workers issue after that",
-        "output filters other than the DB black list are not exercised here (C10); keys starting with the checkpoint prefixes "
-        "are not generated",
+        "the filter DECISION functions (trie, range list) are C10's subject; here their effect on the replay (SELECT order, "
+        "absence of filtered keys) is tied with the decision given as prefix/any-range membership",
     ],
     "partial": [
         "stream_roundtrip_partial: for streams the theorem covers the ENTRIES (every listpack node -> one XADD per live entry "
